@@ -198,8 +198,8 @@ class TraverserVisitor:
         accept(o.callee, self)
         for a in o.args:
             accept(a, self)
-        if o.analyzed:
-            accept(o.analyzed, self)
+        # `o.analyzed` (the CastExpr of a `cast()` call, RevealExpr, AssertTypeExpr, ...) only
+        # wraps nodes that are already in `o.args`, so traversing it would visit them twice.
 
     def visit_op_expr(self, o: OpExpr) -> None:
         accept(o.left, self)
